@@ -13,8 +13,9 @@ Clauses of the property:
                                                                             C17_count_expr_faithful, C17_value_expr_faithful
                                                                             (+ C17_count_expr_old_misread: the tree built
                                                                             before fix F23)
-  recorded findings that restrict (a): F72 (`long` iterators on 32-bit-unsigned thread indices),
-  F70 (comparison and update direction disagree): `_full`, `_full_fails`, `_partial`.
+  recorded finding that restricts (a): F72 (`long` iterators on 32-bit-unsigned thread indices): `_full`,
+  `_full_fails`, `_partial`.  F70 (comparison and update direction disagree) is fixed: the translators now reject
+  such headers (C17_valid_enforced, C17_invalid_direction_rejected); C17_direction_full_fails keeps the witness.
 -/
 import OccaProofs.Lemmas.Loop
 import OccaProofs.Lemmas.ExprGroup
@@ -192,7 +193,21 @@ theorem C17_u32_long_partial (h : Header) (hv : h.Valid) (hs : 0 < h.step) (hr :
   rw [p]
   exact Int.emod_eq_of_lt this.1 this.2
 
-/-- F70: OKL never checks that comparison and update agree; without `Valid` the statement is false. -/
+/-- Since fix F70 the `oklForStatement` constructor rejects every header whose update moves away from the bound:
+    the translators accept a header only if its evaluated form is `Valid`, for every operand value.  So the
+    hypothesis `Valid` of `C17_launch_eq_seq` holds of every loop that is translated at all. -/
+theorem C17_valid_enforced (l : LoopSpec) (env : String → Int) :
+    directionOk l = true ↔ (l.header env).Valid := by
+  obtain ⟨var, attr, index, ityp, init, cmp, right, bound, positive, post, step⟩ := l
+  cases cmp <;> cases right <;> cases positive <;> cases step <;>
+    simp [directionOk, LoopSpec.header, Header.Valid, Header.upward, Header.positiveUpdate]
+
+theorem C17_invalid_direction_rejected (l : LoopSpec) (t : Option TileSpec) (h : directionOk l = false)
+    (hokl : l.attr ≠ .none) : nestRejected [(l, t)] = true := by
+  simp [nestRejected, loopRejected, h, hokl]
+
+/-- F70 (before the fix OKL never checked that comparison and update agree): without `Valid` the statement is
+    false — this is why the guard is needed. -/
 def C17_direction_full : Prop :=
   ∀ h : Header, 0 < h.step → h.DimInRange → launchIters h = seqIters h
 
